@@ -78,6 +78,15 @@ def cases(tier, seed):
         for direction in ("submit|poll", "poll|submit"):
             out.append({"name": "nested.poll-raise/%s/%s" % (">".join(layers), direction), "kind": "pollraisecb", "layers": layers,
                         "dir": direction, "cap": None})
+    # recorded finding: a blocking throttle below a retry layer (see known_findings.json)
+    for above in ([], ["map"], ["cos"]):
+        for n in (3, 5):
+            out.append({"name": "api.blocking-below-retry/%s/n=%d" % (">".join(["throttle", "retry"] + above), n), "kind": "blockretry",
+                        "above": above, "n": n})
+    for above in ([], ["map"]):
+        for how in ("value", "exc"):
+            out.append({"name": "api.blocking-below-retry-manual/%s/%s" % (">".join(["throttle", "retry"] + above), how), "kind": "blockretrym",
+                        "above": above, "how": how})
     nf = 16 if tier == "quick" else 1500
     for i in range(nf):
         out.append({"name": "api.fuzz/%d" % i, "kind": "fuzz", "idx": i, "n": 12 if tier == "quick" else 30})
@@ -768,6 +777,111 @@ class PollRaiseCbScenario(object):
         res.count("poll_raise_callbacks", ctx.n)
 
 
+def run_blockretry(case, res):
+    """thread_pool-like inline delegate -> with_throttle(1, block=True) -> with_retry(): a few submissions whose first
+    attempt fails.  Plain use, no cancel, no shutdown: every submit() returns and every future completes."""
+    begin("vt")
+    ctx = Ctx()
+    try:
+        layers = ["throttle", "retry"] + case["above"]
+        spec = {"base": "me_inline", "layers": layer_specs(layers)}
+        for L in spec["layers"]:
+            if L["t"] == "throttle":
+                L.update(count=1, block=True)
+            if L["t"] == "retry":
+                L.update(max_attempts=3, sleep=0)
+        b = stacks.build(ctx, spec)
+        calls = {}
+
+        def job(i):
+            calls[i] = calls.get(i, 0) + 1
+            if calls[i] == 1:
+                raise UserErrorA("first attempt of %d" % i)
+            return i
+        futs = []
+
+        def client():
+            for i in range(case["n"]):
+                futs.append(call("submit", b.top.submit, job, i, _tag=i))
+        a = ctx.actor("C", client).go()
+        why = drive([a], max_virtual=200.0)
+        instr.advance(5.0)
+        res.execs += 1
+        check_common(res, deadlock_suffix="@blocking-throttle-below-retry")
+        stuck = [i for i, f in enumerate(futs) if not f.done()]
+        if why != "ok" or stuck or len(futs) < case["n"]:
+            # who waits for whom: the retry thread sits in the throttle's blocking submit() holding its executor lock,
+            # the throttle's hand-over thread runs the retry layer's done-callback and wants that lock
+            sig = "retry-lock-held-in-blocking-submit" if any("Retry" in r and s == "parked" for r, s in thread_states()) and \
+                any("Throttle" in r and s == "blocked" for r, s in thread_states()) else "other"
+            res.violation("hang/blocking-throttle-below-retry/%s" % sig,
+                          "%s: submit() returned for %d of %d callables, futures %s never complete (drive: %s): %s"
+                          % (">".join(layers), len(futs), case["n"], stuck, why, instr.describe_threads()), stacks=hang_report(ctx.actors))
+            harness.mark_recycle()
+        res.key("blockretry", ">".join(layers), case["n"])
+        res.sample({"stack": layers, "submissions": case["n"], "submit_returned": len(futs), "never_completed": stuck}, limit=1)
+    finally:
+        end(ctx)
+
+
+def run_blockretrym(case, res):
+    """The same stack over a delegate whose work takes time: A holds the only slot, B fills the throttle's queue, the
+    retry thread is blocked handing over C.  Then A's work ends on the delegate's thread: the slot is given back, the
+    queue moves on, the blocked hand-over returns and everything completes."""
+    begin("vt")
+    ctx = Ctx()
+    try:
+        layers = ["throttle", "retry"] + case["above"]
+        spec = {"base": "me", "layers": layer_specs(layers)}
+        for L in spec["layers"]:
+            if L["t"] == "throttle":
+                L.update(count=1, block=True)
+            if L["t"] == "retry":
+                L.update(max_attempts=2, sleep=0)
+        b = stacks.build(ctx, spec)
+        me = b.base
+        futs = []
+
+        def client():
+            for i in range(3):
+                futs.append(call("submit", b.top.submit, lambda i=i: i, _tag=i))
+        a = ctx.actor("C", client).go()
+        why = drive([a], max_virtual=50.0)
+        instr.settle()
+        ok = why == "ok"
+        for rnd in range(8):
+            p = me.pending()
+            if not p:
+                break
+
+            def worker(k=p[0], rnd=rnd):
+                if case["how"] == "exc" and rnd == 0:
+                    me.fail(k, UserErrorA("attempt"))
+                else:
+                    me.complete(k, ("done", k))
+            wa = ctx.actor("W%d" % rnd, worker).go()
+            if drive([wa], max_virtual=50.0) != "ok":
+                ok = False
+                break
+            instr.advance(0.5)
+        res.execs += 1
+        check_common(res, deadlock_suffix="@blocking-throttle-below-retry/manual")
+        stuck = [i for i, f in enumerate(futs) if not f.done()]
+        if (not ok or stuck or len(futs) < 3) and not LM.deadlocks:
+            res.violation("hang/blocking-throttle-below-retry/manual-completion",
+                          "%s: a delegate thread ending the in-flight work did not get the queue moving: submit() returned for %d of 3, "
+                          "futures %s never complete: %s" % (">".join(layers), len(futs), stuck, instr.describe_threads()), stacks=hang_report(ctx.actors))
+            harness.mark_recycle()
+        res.key("blockretrym", ">".join(layers), case["how"])
+    finally:
+        end(ctx)
+
+
+def thread_states():
+    with instr.MU:
+        return [(getattr(t, "vf_role", t.name), instr.thread_state(t)) for t in instr.all_threads()]
+
+
 def run_nestedcb(case, res):
     """Done-callbacks that submit again, run from every internal thread context:
     the delegate's completing thread, the canceller, the timeout thread, the
@@ -860,6 +974,10 @@ def run_case(case, res):
         return run_nested_race(case, res)
     if case["kind"] == "nestedcb":
         return run_nestedcb(case, res)
+    if case["kind"] == "blockretry":
+        return run_blockretry(case, res)
+    if case["kind"] == "blockretrym":
+        return run_blockretrym(case, res)
     if case["kind"] == "refused":
         return run_refused(case, res)
     if case["kind"] == "pollraisecb":
